@@ -58,7 +58,22 @@ META = {
                         "|net| equal accidentals, which determines the string.",
         explanation="All clauses proved; the former deviation (augmented unison shorthand) was repaired in /repo (fix: bf73356).",
     ),
+    "C06": dict(
+        claimed=True, level="proof",
+        technique="contract-based deductive verification of the 35 builders and of the shorthand table (all roots); the string parser is a bounded run-time contract",
+        level_text="Each of the 35 chord builder functions is proved, for EVERY root (any accidental string), to return the root "
+                   "followed by notes on exactly the letters and semitone distances of its formula (with the exact accidental "
+                   "count, so dim7's double flat is pinned), modularly over the interval-constructor contracts of C02. For every "
+                   "one of the 55 shorthand keys the table entry is proved to build the spec's own formula on every root; the two "
+                   "tables are proved to have equal key sets; keys with the same documented meaning are proved to build chords "
+                   "with the same letters and pitch classes. The parser chords.from_shorthand (aliases, slash, polychord, NC, "
+                   "lists, error classes) is NOT proved: it is checked at run time against an independent grammar reading over a "
+                   "systematic enumeration (bounded stand-in, listed under coverage.bounded, not counted in obligations).",
+        level_note=TB + " Assumed (bounded only): the contract of chords.from_shorthand.",
+        explanation="Builders and tables: proved for all roots. Parser: bounded stand-in (8.9k strings, exhaustive over root x "
+                    "shorthand x alias x bass x polychord partner classes as stated in the battery rule).",
+    ),
 }
 
 _NOT_YET = "not yet brought under contract in this build step (see DESIGN.md §9 for the plan); nothing is claimed"
-NOT_APPLICABLE = dict(("C%02d" % i, _NOT_YET) for i in range(5, 21))
+NOT_APPLICABLE = dict(("C%02d" % i, _NOT_YET) for i in [5] + list(range(7, 21)))
